@@ -140,6 +140,7 @@ Inductive bad_collect (d:fdesc) : Prop :=
 
 Inductive bad_parse (d:fdesc) : Prop :=
 | bad_pb dec : is_pb d = Some dec -> d_pay d = PayUndecodable -> bad_parse d
+| bad_pb_merge dec : is_pb d = Some dec -> d_pay d = PayInvalid -> bad_parse d
 | bad_no_format : is_pb d = None -> ext_formats (t_parser T) (d_path d) = [] -> bad_parse d
 | bad_json : is_pb d = None -> length (ext_formats (t_parser T) (d_path d)) <> 1 -> d_eff d = None -> bad_parse d
 | bad_no_signature c : is_pb d = None -> length (ext_formats (t_parser T) (d_path d)) <> 1 -> d_eff d = Some c ->
@@ -189,7 +190,8 @@ Proof.
   assert (Hg : forall k, (match guess (t_parser T) (d_path d) (d_content d) (d_yaml d) with
                           | GDetect => Some ForeignDetect | GAmbiguous _ => Some ForeignAmbiguous | GJsonErr => Some ForeignJson
                           | GOk _ => Some k end) <> None) by (intros k; destruct (guess _ _ _ _); discriminate).
-  destruct Hb as [dec Hp Hpay|Hp Hn|Hp Hl He|c Hp Hl He Hs|c Hp Hl He Hs|Hp Hpay]; unfold is_pb, d_eff in *; rewrite Hp.
+  destruct Hb as [dec Hp Hpay|dec Hp Hpay|Hp Hn|Hp Hl He|c Hp Hl He Hs|c Hp Hl He Hs|Hp Hpay]; unfold is_pb, d_eff in *; rewrite Hp.
+  - rewrite Hpay. eauto.
   - rewrite Hpay. eauto.
   - unfold import_foreign. destruct (guess_no_format (t_parser T) (d_path d) (d_content d) (d_yaml d) Hn) as [-> | ->]; eauto.
   - unfold import_foreign. rewrite (guess_bad_json _ _ _ _ Hl He). eauto.
